@@ -392,7 +392,7 @@ func init() {
 	drv.Register(&drv.Check{
 		ID:    "C18",
 		Title: "Independent calls are safe to run concurrently",
-		Rule: "two complementary deciders over the same 22-call harness alphabet (boolean flat/tree/D, inflate polygon/open with differing delta and arc tolerance, rectangle clipping of polygons and lines, Minkowski sum and two differences sharing one pattern, simplify, trim/area/point-in-polygon, ClipperD and ClipperOffset objects, two ClipperOffset objects with delta callbacks returning different deltas, two tree differences of touching figures plus direct containment tests, two SimplifyPath64 calls on 300-vertex paths) on shared read-only inputs and distinct objects: " +
+		Rule: "two complementary deciders over the same 23-call harness alphabet (boolean flat/tree/D, inflate polygon/open with differing delta and arc tolerance, rectangle clipping of polygons and lines with three different rectangles, Minkowski sum and two differences sharing one pattern, simplify, trim/area/point-in-polygon, ClipperD and ClipperOffset objects, two ClipperOffset objects with delta callbacks returning different deltas, two tree differences of touching figures plus direct containment tests, two SimplifyPath64 calls on 300-vertex paths) on shared read-only inputs and distinct objects: " +
 			"(A) exhaustive schedule exploration: an AST instrumenter derives scheduling points from the current tree (before every statement touching a package-level variable, at entry/exit of every exported function, at the head of the engines' outermost loops) and feeds the rewritten files to go build -overlay; a cooperative scheduler runs one thread at a time and a deviation-bounded DFS (iterated preemption bound, canonical enabled order) executes every schedule of every scenario (all ordered pairs of calls, two-call threads, triples in the thorough tier) within the bound; oracle per schedule: every call returns exactly its solo result, shared inputs unchanged; one schedule per scenario is replayed and must reproduce. " +
 			"(B) the same bodies free-running in a -race build behind a barrier, every ordered pair (thorough: triple) x 20 runs: any race report, crash or result mismatch is a violation. non-trivial = explored schedules with at least one preemption inside a call",
 		Assumptions: []string{"scheduling points exist only where the instrumenter puts them; memory interference not reachable from a package-level variable is left to the race pass", "at most 24 (quick) / 36 (thorough) recorded scheduling points per execution, preemption bound 2"},
